@@ -4357,7 +4357,7 @@ impl LengthReadable for UnsignedNodeAnnouncement {
 			}
 			match Readable::read(r) {
 				Ok(Ok(addr)) => {
-					if addr_len < addr_readpos + 1 + addr.len() {
+					if addr_len - addr_readpos < 1 + addr.len() {
 						return Err(DecodeError::BadLengthDescriptor);
 					}
 					addr_readpos += (1 + addr.len()) as u16;
